@@ -93,6 +93,26 @@ class EnumNS:
 GLOBALS["enum"] = EnumNS()
 
 
+class InspectNS:
+    def model_attr(self, a):
+        if a == "isclass":
+            return Fn(lambda t: isinstance(t, Ty))
+        raise AnalysisError("typemodel: inspect." + a)
+
+
+class Fn:
+    """a modelled library function reached through a module attribute"""
+
+    def __init__(self, f):
+        self.f = f
+
+    def __call__(self, *a):
+        return self.f(*a)
+
+
+GLOBALS["inspect"] = InspectNS()
+
+
 def f_get_origin(t):
     return t.origin if isinstance(t, Gen) else None
 
@@ -143,6 +163,11 @@ CATEGORIES: Dict[str, List[Any]] = {
     "optional-custom": [opt(CUSTOM)],
     "list-of-custom": [Gen(LIST, (CUSTOM,))],
 }
+# classification-only categories (C17): annotations the class diagram classifies although the ORM grammar (C06) does not list them
+CLASSIFY_ONLY: Dict[str, List[Any]] = {
+    "collection-of-enum": [Gen(LIST, (MYENUM,)), Gen(SET, (MYENUM,)), Gen(SEQUENCE, (MYENUM,))],
+    "type-of-enum": [Gen(TYPE, (MYENUM,))],
+}
 
 PREDICATES = ["is_optional", "is_container", "is_builtin_type", "is_enum", "is_type_type", "is_one_to_one_relationship",
               "is_one_to_many_relationship", "is_collection_of_builtins", "type_endpoint", "is_iterable"]
@@ -163,6 +188,9 @@ EXPECTED: Dict[str, Dict[str, Any]] = {
     "custom": dict(is_optional=F, is_container=F, is_builtin_type=F, is_enum=F, is_type_type=F, is_one_to_one_relationship=T, is_one_to_many_relationship=F, is_collection_of_builtins=F, endpoint="self", is_iterable=F),
     "optional-custom": dict(is_optional=T, is_container=F, is_builtin_type=F, is_enum=F, is_type_type=F, is_one_to_one_relationship=T, is_one_to_many_relationship=F, is_collection_of_builtins=F, endpoint="inner", is_iterable=F),
     "list-of-custom": dict(is_optional=F, is_container=T, is_builtin_type=F, is_enum=F, is_type_type=F, is_one_to_one_relationship=F, is_one_to_many_relationship=T, is_collection_of_builtins=F, endpoint="inner", is_iterable=T),
+    # a collection of enum members is a container, not an enum field; Type[Enum] is type-valued
+    "collection-of-enum": dict(is_optional=F, is_container=T, is_builtin_type=F, is_enum=F, is_type_type=F, is_one_to_one_relationship=F, is_one_to_many_relationship=T, is_collection_of_builtins=F, endpoint="inner", is_iterable=T),
+    "type-of-enum": dict(is_optional=F, is_container=T, is_builtin_type=F, is_enum=F, is_type_type=T, is_one_to_one_relationship=F, is_one_to_many_relationship=T, is_collection_of_builtins=F, endpoint="inner", is_iterable=F),
 }
 
 
@@ -195,11 +223,11 @@ def evaluate_predicate(prog: Program, pred: str, ann, receiver: str = "self"):
         raise AnalysisError(f"WF-TABLE: WrappedField.{pred} consults {na.atom}, outside the typing facts tabled in the checker")
 
 
-def wf_table(prog: Program, r, rule_prefix: str = ""):
+def wf_table(prog: Program, r, rule_prefix: str = "", classify_only: bool = False):
     """one obligation per (annotation category, predicate): value derived from /repo's source
     equals the value the annotation grammar dictates"""
     wf = prog.cls("wrapped_field.WrappedField")
-    for cat, anns in CATEGORIES.items():
+    for cat, anns in list(CATEGORIES.items()) + (list(CLASSIFY_ONLY.items()) if classify_only else []):
         exp = EXPECTED[cat]
         for pred in PREDICATES:
             f = prog.lookup(wf.qual, pred)
